@@ -735,6 +735,121 @@ func protocolConstants() {
 
 func init() { sections = append(sections, protocolConstants) }
 
+// ---------------------------------------------------------------------------
+// flush / offset-file / insert submission protocol (C02): the order of the durable steps
+// ---------------------------------------------------------------------------
+
+func funcDecl(f *ast.File, recv, name string) *ast.FuncDecl {
+	for _, d := range f.Decls {
+		fd, ok := d.(*ast.FuncDecl)
+		if !ok || fd.Name.Name != name || fd.Body == nil {
+			continue
+		}
+		r := ""
+		if fd.Recv != nil && len(fd.Recv.List) == 1 {
+			switch t := fd.Recv.List[0].Type.(type) {
+			case *ast.StarExpr:
+				if id, ok := t.X.(*ast.Ident); ok {
+					r = id.Name
+				}
+			case *ast.Ident:
+				r = t.Name
+			}
+		}
+		if r == recv {
+			return fd
+		}
+	}
+	return nil
+}
+
+// orderedSteps lists, in source order, the calls and assignments of body that appear in `calls` / `assigns`,
+// skipping deferred statements and function literals.
+func orderedSteps(body *ast.BlockStmt, calls map[string]string, assigns map[string]string) []string {
+	var steps []string
+	ast.Inspect(body, func(n ast.Node) bool {
+		switch x := n.(type) {
+		case *ast.DeferStmt, *ast.FuncLit:
+			return false
+		case *ast.AssignStmt:
+			for _, l := range x.Lhs {
+				if name, ok := assigns[selectorPath(l)]; ok {
+					steps = append(steps, name)
+				}
+			}
+		case *ast.CallExpr:
+			if name, ok := calls[selectorPath(x.Fun)]; ok {
+				steps = append(steps, name)
+			}
+		}
+		return true
+	})
+	return steps
+}
+
+// callsInLoops reports, for every call of `path` in body, whether it sits inside a for/range statement.
+func callsInLoops(body *ast.BlockStmt, path string) []bool {
+	var res []bool
+	var walk func(n ast.Node, inLoop bool)
+	walk = func(n ast.Node, inLoop bool) {
+		ast.Inspect(n, func(m ast.Node) bool {
+			if m == n {
+				return true
+			}
+			switch x := m.(type) {
+			case *ast.ForStmt:
+				walk(x.Body, true)
+				return false
+			case *ast.RangeStmt:
+				walk(x.Body, true)
+				return false
+			case *ast.CallExpr:
+				if selectorPath(x.Fun) == path {
+					res = append(res, inLoop)
+				}
+			}
+			return true
+		})
+	}
+	walk(body, false)
+	return res
+}
+
+func flushProtocolFacts() {
+	out.WriteString("\n(* ---- flush / offset-file / insert submission protocol: row_store.go, insert.go ---- *)\n")
+	rsf := parse("row_store.go")
+	flushSteps, offSteps := []string{}, []string{}
+	if fd := funcDecl(rsf, "rowStore", "doProcessFlush"); fd != nil {
+		flushSteps = orderedSteps(fd.Body, map[string]string{"fs.flush": "write", "out.Sync": "sync", "out.Close": "close", "os.Rename": "rename"},
+			map[string]string{"rs.fileStore": "swap_file", "rs.memStore": "swap_mem"})
+	} else {
+		unsupported = append(unsupported, "gen_flush_steps")
+	}
+	if fd := funcDecl(rsf, "rowStore", "writeOffsets"); fd != nil {
+		offSteps = orderedSteps(fd.Body, map[string]string{"rs.t.writeOffsets": "write", "out.Sync": "sync", "out.Close": "close", "os.Rename": "rename"}, nil)
+	} else {
+		unsupported = append(unsupported, "gen_offsets_steps")
+	}
+	fmt.Fprintf(&out, "Definition gen_flush_steps : list string := %s.\n", quoteStrs(flushSteps))
+	fmt.Fprintf(&out, "Definition gen_offsets_steps : list string := %s.\n", quoteStrs(offSteps))
+	// table.doInsert: how the row-store inserts of one point are submitted (one call outside any loop = atomically)
+	var subs []string
+	if fd := funcDecl(parse("insert.go"), "table", "doInsert"); fd != nil {
+		for _, inLoop := range callsInLoops(fd.Body, "t.rowStore.insert") {
+			if inLoop {
+				subs = append(subs, "in_loop")
+			} else {
+				subs = append(subs, "once")
+			}
+		}
+	} else {
+		unsupported = append(unsupported, "gen_point_submissions")
+	}
+	fmt.Fprintf(&out, "Definition gen_point_submissions : list string := %s.\n", quoteStrs(subs))
+}
+
+func init() { sections = append(sections, flushProtocolFacts) }
+
 func main() {
 	flag.Parse()
 	out.WriteString("(* GENERATED by /verif/harness/cmd/srcfacts from /repo on every run. Do not edit. *)\n")
